@@ -69,7 +69,7 @@ let do_ren hex order td lim ctxf tracew =
   for i = 0 to n + 1 do pr "%d," (iz (ren_pos dr o s (zi i))) done;
   pr " noeol=";
   for i = -1 to n + 1 do pr "%d," (iz (ren_noeol s (zi i))) done;
-  let ranges = if total <= 80 then [(-2, total + 2)] else [(-2, 12); (total - 12, total + 2)] in
+  let ranges = if total <= 80 then [(-2, total + 2)] else [(-2, 6); (total - 6, total + 2)] in
   pr " cols=";
   List.iter (fun (lo, hi) ->
     for p = lo to hi do
